@@ -132,10 +132,13 @@ func c02(r *ev.Run) {
 			}
 			cs = append(cs, c02Case{sp, t, 999999999, 1, false, 0, 6, 0, false}, c02Case{Secret: sp, Unix: t, Nil: true})
 		}
-		afterWarmups(r, "totp-generate-after-other-operations", cs, func(c c02Case) (string, string) { return totpGen(c, k) })
+		for _, n := range []int{1, 16, 19, 21, 33, 64} {
+			cs = append(cs, c02Case{ref.B32Encode(patt(n, 9)), 1111111109, 0, 0, false, 30, 6, n % 3, false})
+		}
+		afterWarmups(r, "totp-generate-after-other-operations", cs, func(c c02Case) (string, string) { _, key := ref.B32Classify(c.Secret); return totpGen(c, key) })
 	}
 	volume(r, "totp-generate-volume", 1100, func(k int) c02Case {
-		return c02Case{ref.B32Encode([]byte(fmt.Sprintf("volume-key-%04d", k))), int64(k) * 977, 0, k % 4, false, []uint64{30, 0, 60, 1}[k%4], 6 + 2*(k%2), k % 3, false}
+		return c02Case{ref.B32Encode([]byte(fmt.Sprintf("volume-key-%04d-0123456789abcdefghij", k))[:10+(k*7)%27]), int64(k) * 977, 0, k % 4, false, []uint64{30, 0, 60, 1}[k%4], 6 + 2*(k%2), k % 3, false}
 	}, func(c c02Case) (string, string) { _, key := ref.B32Classify(c.Secret); return totpGen(c, key) })
 	if ReplayOnly {
 		return
@@ -261,6 +264,30 @@ func c02(r *ev.Run) {
 		}
 		r.Eval(hn)
 		r.Set("history_calls", hn)
+	}
+	// every key length 0..140 (all residues of the base32 length mod 8, around both HMAC block sizes) in four spellings,
+	// at a few instants: the TOTP code is the HOTP code of the same key
+	{
+		var kn atomic.Int64
+		ev.Par(141, func(n int) {
+			key := patt(n, byte(n*7+1))
+			var local int64
+			for si, sec := range spellings(key) {
+				for _, t := range []int64{59, 1111111109} {
+					for a := 0; a < 3; a++ {
+						c := c02Case{sec, t, 0, 0, false, []uint64{30, 0}[si%2], 6 + 2*(a%2), a, false}
+						obs, bad := totpGen(c, key)
+						local++
+						if bad != "" {
+							r.Fail("totp-generate", fmt.Sprintf("key of %d bytes (spelling %d) algo=%d: %s", n, si, a, bad), c, bad, obs)
+						}
+					}
+				}
+			}
+			kn.Add(local)
+			r.Eval(local)
+		})
+		r.Set("key_length_sweep_calls", kn.Load())
 	}
 	// real time zones: every half hour (and the second before) of three years in each zone, i.e. across every
 	// daylight-saving transition, repeated and skipped wall-clock hour: the code depends on the instant only
